@@ -257,6 +257,17 @@ func ruleReceiptFlow(r *Run) {
 			queued++
 			r.CheckT("I5", fn.Name+":never-blocks", ev.NonBlocking, ev.Pos, path, "submitting a receipt never blocks the connection (select with default)")
 			r.CheckT("I5", fn.Name+":queue", r.P.Canon(ev.Fn, ev.Chan) == "recv.ReceiptChan", ev.Pos, path, "the receipt is queued on the handler's receipt channel")
+			// a receipt is queued only when none of its three fields is empty
+			g := r.guardMap(path)
+			allSet := true
+			var missing []string
+			for _, f := range []string{"Receipt", "Hash", "Signature"} {
+				if g["zero:len(var:req."+f+")"] != "nonzero" {
+					allSet = false
+					missing = append(missing, f)
+				}
+			}
+			r.CheckT("I5", fn.Name+":fields-nonempty", allSet, ev.Pos, path, "a receipt is queued only after its receipt, hash and signature were each found non-empty (not established on this path: %v): a request with an empty field is answered bad request, never forwarded", missing)
 			if ss, ok := ev.Node.(*ast.SendStmt); ok {
 				lit := r.P.compositeOf(fn, ss.Value)
 				okP := lit != nil
